@@ -347,8 +347,15 @@ class Transaction:
         """Queue files to delete from the table"""
         if not self.is_active():
             raise RuntimeError("Transaction is not active")
+        if isinstance(file_paths, (str, bytes)):
+            # A bare path iterates as its characters: nothing matched, and an
+            # empty "delete" snapshot was committed without removing the file.
+            raise TypeError(
+                f"delete_files() takes a list of paths, got a single {type(file_paths).__name__}; "
+                f"pass [{file_paths!r}]"
+            )
 
-        self._operations.append({"type": "delete_files", "file_paths": file_paths})
+        self._operations.append({"type": "delete_files", "file_paths": list(file_paths)})
 
         return self
 
